@@ -330,6 +330,8 @@ func (x *wexec) step(si int, s WStep) {
 		var t time.Time
 		if s.Deadline > 0 {
 			t = x.tw.Base.Add(time.Duration(s.Deadline) * time.Hour)
+		} else if s.Deadline < 0 {
+			t = x.tw.Base.Add(-time.Hour) // long expired
 		}
 		x.call(si, 0, "SetWriteDeadline", false, -1, func() error { return c.SetWriteDeadline(t) })
 		x.deadline = t
